@@ -16,6 +16,8 @@ void sched_event(const char* fmt, ...);
 void sched_point(const char* label);
 // property-level oracle failure detected by the scenario: recorded in the verdict
 void sched_fail(const char* fmt, ...);
+// the next pthread_create of a managed thread fails with EAGAIN (and leaves a dangling value in *thread, as glibc does)
+void sched_fail_next_create(void);
 long long sched_now_ms(void);
 // ids of the managed threads that are blocked on a condition variable right now (not yet woken in any way)
 int sched_cond_blocked(int* ids, int max);
